@@ -99,6 +99,8 @@ def check(cps: $$CPS$$, title: $$TT$$, title2: $$TT$$, hdr: Tuple[int, int]) -> 
     c = str(w)
     ok = a == spec.heading(t1, ch0) + body and b == a and c == a and len(w.document) == n0
     if ok:
+        other = RSTWriter("another document", settings=Settings())     # a second document with other header characters exists meanwhile
+        other.text("x")
         w.title = t2                   # re-framed when the title is changed; the rest of the document is untouched
         ok = w.to_text() == spec.heading(t2, ch0) + body and w.title == t2
     if ok and len(SCRIPT) > 0 and len(w.document) > 1:
